@@ -50,12 +50,9 @@ structure NumParts where
   deriving DecidableEq, Repr
 
 def splitNum (num : List Char) : NumParts :=
-  let p1 := num.span isDig
-  match p1.2 with
-  | '.' :: r =>
-    let p2 := r.span isDig
-    { intd := p1.1, dot := true, frac := p2.1, rest := p2.2 }
-  | r => { intd := p1.1, dot := false, frac := [], rest := r }
+  match num.dropWhile isDig with
+  | '.' :: r => { intd := num.takeWhile isDig, dot := true, frac := r.takeWhile isDig, rest := r.dropWhile isDig }
+  | r => { intd := num.takeWhile isDig, dot := false, frac := [], rest := r }
 
 /-- decimal exponent of the value a style-f text denotes (0 for a zero value): position of its
 first nonzero digit -/
